@@ -1600,6 +1600,15 @@ func (c *codegen) Visit(node ast.Node) ast.Visitor {
 			}
 			return nil
 		}
+		if sel := c.typeInfo.Selections[n]; sel != nil && sel.Kind() != types.FieldVal {
+			// x.M (a closure over x) or T.M outside of a call.
+			kind := "value"
+			if sel.Kind() == types.MethodExpr {
+				kind = "expression"
+			}
+			c.prog.Err = fmt.Errorf("method %s %s.%s is not supported", kind, types.ExprString(n.X), n.Sel.Name)
+			return nil
+		}
 		strct, ok := getStruct(typ)
 		if !ok {
 			c.prog.Err = fmt.Errorf("selectors are supported only on structs")
